@@ -117,7 +117,8 @@ def array_binop(op, a, b):
         x = A.cast_term(aa.dtype, dt, x) if op not in ("BitAnd", "BitOr", "BitXor") or dt.kind != "b" else x
         y = A.cast_term(bb.dtype, dt, y) if op not in ("BitAnd", "BitOr", "BitXor") or dt.kind != "b" else y
         r = scalar_binop(op, x, y)
-        if dt.kind in "iu" and op in ("Add", "Sub", "Mult"):
+        if dt.kind in "iu" and dt.itemsize < 8 and op in ("Add", "Sub", "Mult"):
+            # 64-bit integers are treated as mathematical integers (A-INT64: indices / counts never reach 2^63)
             lo, hi = A.int_range(dt)
             m = hi - lo + 1
             r = ((r - lo) % m) + lo
@@ -142,7 +143,7 @@ def unop(op, a):
                 raise TypeError("The numpy boolean negative, the `-` operator, is not supported")
             def neg(x):
                 r = -x
-                if a.dtype.kind in "iu":
+                if a.dtype.kind in "iu" and a.dtype.itemsize < 8:
                     lo, hi = A.int_range(a.dtype)
                     r = ((r - lo) % (hi - lo + 1)) + lo
                 return r
